@@ -1,8 +1,62 @@
-/- line-protocol handlers for C02 (stub: not built yet) -/
+/- line-protocol handlers for C02 (parameter counts and claimed ranks of the differentials).
+`C02 <class> <options…>` ↦ `<parameter count> <rank of the differential claimed by the property>`. -/
 import Driver.Loop
+import NumqiModel.Manifold
 
 namespace Numqi.Driver.C02
+open Numqi.Manifold.Count
 
-def handle (_args : List String) : String := "bad-op"
+def rc? (s : String) : Option Bool := if s = "r" then some true else if s = "c" then some false else none
+def flag? (s : String) : Option Bool := if s = "1" then some true else if s = "0" then some false else none
+def method? (s : String) : Option StMethod :=
+  match s with
+  | "choleskyL" => some .choleskyL | "qr" => some .qr | "polar" => some .polar
+  | "so-exp" => some .soExp | "so-cayley" => some .soCayley | "euler" => some .euler | _ => none
+
+def handle (args : List String) : String :=
+  match args with
+  | ["psd", dim, rank, rc, chol] => Id.run do
+      let some dim := dim.toNat? | return "bad-op"
+      let some rank := rank.toNat? | return "bad-op"
+      let some isReal := rc? rc | return "bad-op"
+      let some chol := flag? chol | return "bad-op"
+      if dim < 2 || rank = 0 || rank > dim then return "bad-op"
+      return s!"{psdParam dim rank isReal chol} {psdDim dim rank isReal}"
+  | ["sym", dim, rc, t0, n1] => Id.run do
+      let some dim := dim.toNat? | return "bad-op"
+      let some isReal := rc? rc | return "bad-op"
+      let some t0 := flag? t0 | return "bad-op"
+      let some n1 := flag? n1 | return "bad-op"
+      if dim < 2 then return "bad-op"
+      return s!"{symParam dim isReal t0} {symDim dim isReal t0 n1}"
+  | ["ball", dim, rc] => Id.run do
+      let some dim := dim.toNat? | return "bad-op"
+      let some isReal := rc? rc | return "bad-op"
+      if dim < 2 then return "bad-op"
+      return s!"{ballParam dim isReal} {ballParam dim isReal}"
+  | ["sphere", dim, rc, q] => Id.run do
+      let some dim := dim.toNat? | return "bad-op"
+      let some isReal := rc? rc | return "bad-op"
+      let some q := flag? q | return "bad-op"
+      if dim < 2 then return "bad-op"
+      return s!"{sphereParam dim isReal q} {sphereDim dim isReal}"
+  | ["prob", dim] => Id.run do
+      let some dim := dim.toNat? | return "bad-op"
+      if dim < 2 then return "bad-op"
+      return s!"{probParam dim} {simplexDim dim}"
+  | ["so", dim, rc] => Id.run do
+      let some dim := dim.toNat? | return "bad-op"
+      let some isReal := rc? rc | return "bad-op"
+      if dim < 2 then return "bad-op"
+      return s!"{soParam dim isReal} {soDim dim isReal}"
+  | ["stiefel", dim, rank, rc, m, ph] => Id.run do
+      let some dim := dim.toNat? | return "bad-op"
+      let some rank := rank.toNat? | return "bad-op"
+      let some isReal := rc? rc | return "bad-op"
+      let some m := method? m | return "bad-op"
+      let some ph := flag? ph | return "bad-op"
+      if dim < 2 || rank = 0 || rank > dim then return "bad-op"
+      return s!"{stiefelParam dim rank isReal m ph} {stiefelRank dim rank isReal m ph}"
+  | _ => "bad-op"
 
 end Numqi.Driver.C02
